@@ -1,6 +1,7 @@
 package main
 
 import (
+	"os"
 	"fmt"
 	"go/ast"
 	"go/constant"
@@ -392,6 +393,11 @@ func (c *Ctx) run(s *State) {
 			c.undecide(fmt.Sprintf("path limit %d exceeded", c.maxPaths))
 			return
 		}
+		if os.Getenv("GOVC_DEBUG_PATHS") != "" && c.npaths != c.dbgLast {
+			c.dbgLast = c.npaths
+			top := s.top()
+			fmt.Fprintf(os.Stderr, "PATH %d now in %s block %d (%s) frames=%d\n", c.npaths, top.fn.Name(), top.block.Index, top.block.Comment, len(s.frames))
+		}
 		fr := s.top()
 		if fr.idx == 0 {
 			// block entry: loop header handling and phis
@@ -415,6 +421,26 @@ func (c *Ctx) run(s *State) {
 				}
 				c.jump(fr, fr.block.Succs[k])
 				continue
+			}
+			// opt prune: drop a branch whose path condition is unsatisfiable (one short solver call per branch); only
+			// a definite "unsat" prunes, so this never hides a feasible path
+			if c.fc.Opts["prune"] != "" {
+				okT := c.branchFeasible(s, cond)
+				okF := c.branchFeasible(s, "(not "+cond+")")
+				if !okT && okF {
+					c.assume(s, "(not "+cond+")")
+					c.jump(fr, fr.block.Succs[1])
+					continue
+				}
+				if okT && !okF {
+					c.assume(s, cond)
+					c.jump(fr, fr.block.Succs[0])
+					continue
+				}
+				if !okT && !okF {
+					c.npaths++
+					return // the path itself was already infeasible
+				}
 			}
 			s2 := s.clone()
 			c.nextPathID++
@@ -461,6 +487,26 @@ func (c *Ctx) run(s *State) {
 			return
 		default:
 			forked := c.step(s, fr, in)
+			// opt cutafter <callee>: the path ends right after the first direct call of <callee>; the postconditions
+			// (which must not mention results) are checked there. Used for obligations about an argument of that call
+			// inside functions whose remaining body would multiply the paths.
+			if cut := c.fc.Opts["cutafter"]; cut != "" && len(s.frames) == 1 && forked == nil {
+				if call, ok := in.(*ssa.Call); ok {
+					name := ""
+					if callee, ok := call.Common().Value.(*ssa.Function); ok {
+						name = relFuncName(callee)
+					} else if call.Common().IsInvoke() {
+						name = "(" + typeName(call.Common().Value.Type()) + ")." + call.Common().Method.Name()
+					}
+					for _, want := range strings.Split(cut, "|") {
+						if name != "" && name == strings.TrimSpace(want) {
+							c.cutReturn(s, fr)
+							c.npaths++
+							return
+						}
+					}
+				}
+			}
 			if forked != nil {
 				// step requested a fork: run each alternative
 				for i, alt := range forked {
@@ -810,6 +856,53 @@ func (c *Ctx) atReturn(s *State, fr *Frame, res Val) {
 		menv.vars = c.entryEnvVars
 		menv.heap = map[string]string{}
 		c.checkFrame(s, map[string]string{}, append(c.evalMods(menv, c.fc.Modifies), c.extraMods...), "alloc0", "frame", "", pos)
+	}
+	c.reach(s, "reach", "return", "some return reachable")
+}
+
+// branchFeasible: false only if the solver proves cmds ∧ cond unsatisfiable within a second.
+func (c *Ctx) branchFeasible(s *State, cond string) bool {
+	var sb strings.Builder
+	sb.WriteString(preamble(c.ar.bv))
+	sb.WriteString(strings.Join(c.decls, "\n"))
+	sb.WriteByte('\n')
+	for _, cmd := range s.cmds {
+		sb.WriteString(cmd)
+		sb.WriteByte('\n')
+	}
+	sb.WriteString("(assert " + cond + ")\n(check-sat)\n")
+	f, err := os.CreateTemp("", "govc-prune-*.smt2")
+	if err != nil {
+		return true
+	}
+	defer os.Remove(f.Name())
+	f.WriteString(sb.String())
+	f.Close()
+	a, _, _ := runSolver(solvers[0], f.Name(), 1)
+	return a != "unsat"
+}
+
+// cutReturn: end of a path cut by "opt cutafter": postconditions only (no frame check, results unbound).
+func (c *Ctx) cutReturn(s *State, fr *Frame) {
+	env := c.newSpecEnv(s, fr)
+	env.vars = map[string]Val{}
+	for k, v := range c.entryEnvVars {
+		env.vars[k] = v
+	}
+	env.old = map[string]string{}
+	env.oldIsEntry = true
+	env.localsInPost = true
+	pos := fr.fn.Pos()
+	if fr.idx > 0 {
+		pos = fr.block.Instrs[fr.idx-1].Pos()
+	}
+	c.assumptions["opt cutafter: function "+c.name+" is only examined up to its first call of "+c.fc.Opts["cutafter"]] = true
+	for i, e := range c.fc.Ensures {
+		label := e.Label
+		if label == "" {
+			label = fmt.Sprintf("%d", i)
+		}
+		c.obligeClauseAt(s, env, "post", label, e, pos)
 	}
 	c.reach(s, "reach", "return", "some return reachable")
 }
